@@ -36,7 +36,7 @@ m("c05_renewal_not_rearmed_on_even", "C05", DL,
 m("c05_unlock_does_not_cancel_timer", "C05", DL,
   "\tfuture := l.future.Load().(timeout.Future)\n\tfuture.Cancel()\n\terr := l.dlp.Storage.Delete",
   "\terr := l.dlp.Storage.Delete",
-  "Unlock leaves the renewal timer armed. With a successful Delete the one armed attempt fails with ErrNotExist and arms nothing (allowed by C05; this was a control mutant at first); with a failing Delete the attempt refreshes the record of the released lock")
+  "EQUIVALENT (control) since fix 503bfdb: Unlock leaves the renewal timer armed, but it has advanced the tenure counter, so the armed attempt returns without a storage call. (Before that fix: harmless with a successful Delete, a refresh of the released lock's record with a failing one - which is how defect 14 was noticed.)")
 m("c05_renewal_uses_put", "C05", DL,
   "\tr, err := l.dlp.Storage.CasByVersion(context.Background(), kvs.Record{",
   "\tr, err := l.dlp.Storage.Put(context.Background(), kvs.Record{",
